@@ -120,12 +120,17 @@ class C01:
         if recipe["extra"] and rng.chance(0.5):
             inh, top = G.gen_inheritance(rng, recipe["flags"])
             templates.update(inh)
+        broken_mains, broken_names = [], []
+        if top and rng.chance(0.5):
+            brk, broken_mains, broken_names = G.gen_broken_inheritance(rng, top)
+            templates.update(brk)
         mains = []
         for _ in range(rng.randint(1, 3)):
             tg = G.TreeGen(rng, recipe["flags"], recipe["extra"], partials=pnames, drops=True,
                            template_comments=recipe["template_comments"], budget=rng.randint(4, 24),
                            max_depth=rng.randint(1, 3), simfilters=True)
             mains.append(tg.template())
+        mains.extend(broken_mains)
         datas = [G.gen_data(rng, drops=True) for _ in range(rng.randint(1, 3))]
         for d in datas:
             if rng.chance(0.5):
@@ -153,6 +158,19 @@ class C01:
             return op
 
         clients = [{"id": c, "ops": [gen_op() for _ in range(rng.randint(1, 5))]} for c in range(rng.randint(1, 6))]
+        override = None
+        if kind == "fs" and rng.chance(0.5):
+            # two search directories; between two phases of the run (nothing in flight) some names gain a
+            # file in the directory that comes FIRST: both APIs must then serve the override
+            override = {"names": rng.sample(names, rng.randint(1, min(2, len(names))))}
+            for c in clients:
+                ops2 = []
+                for _ in range(rng.randint(0, 3)):
+                    op = gen_op()
+                    if "name" in op and rng.chance(0.7):
+                        op["name"] = rng.choice(override["names"])
+                    ops2.append(op)
+                c["ops2"] = ops2
         if len(clients) > 1 and len(datas) > 1 and rng.chance(0.35):
             # swarm bias: every client hammers ONE template object with different data at the same time
             m = rng.randrange(len(mains))
@@ -167,7 +185,7 @@ class C01:
             "recipe": recipe, "loader": kind, "ns_key": NS_KEY if rng.chance(0.5) else "",
             "capacity": rng.choice([1, 2, 300]), "auto_reload": rng.chance(0.7),
             "uptodate": rng.choice(["fs-like", "sync", "none"]), "ext": rng.choice([None, ".liquid"]),
-            "templates": templates, "mains": mains, "datas": datas, "clients": clients,
+            "templates": templates, "mains": mains, "datas": datas, "clients": clients, "override": override,
             "sched_seed": rng.randrange(1 << 30),
             "lat": {"max": 0.01, "zero_p": rng.choice([0.1, 0.4]), "stall_p": rng.choice([0.0, 0.03])},
             "profile": rng.chance(0.04),
@@ -188,6 +206,8 @@ class C01:
             return CachingDictLoader(dict(sources), **kw)
         if kind in ("fs", "cfs"):
             root = fs.path("root")
+            if kind == "fs" and sc.get("override"):
+                return FileSystemLoader([fs.path("hi"), root], ext=sc["ext"])
             return FileSystemLoader(root, ext=sc["ext"]) if kind == "fs" else \
                 CachingFileSystemLoader(root, ext=sc["ext"], **kw)
         if kind == "pkg":
@@ -256,6 +276,7 @@ class C01:
         recipe = sc["recipe"]
         sources = {nm: G.render_source(tree) for nm, tree in sc["templates"].items()}
         fs.mkdir("root")
+        fs.mkdir("hi")
         for nm, src in sources.items():
             rel = nm if "." in nm.rsplit("/", 1)[-1] or not sc["ext"] else nm + sc["ext"]
             fs.write("root/" + rel, src, 1)
@@ -384,9 +405,9 @@ class C01:
                     return tmpl_obs(await ctx.get_template_async(op["name"]))
             return await outcome_async(f())
 
-        async def client(c):
+        async def client(c, phase="ops"):
             me = "c%d" % c["id"]
-            for op in c["ops"]:
+            for op in c.get(phase) or []:
                 loop.streams[me] = loop.rng.fork("op", op["uid"])
                 await loop.latency("think")
                 kind = {"render_named": "render", "env_render": "render", "toplevel": "render", "ctx_load": "load",
@@ -419,6 +440,16 @@ class C01:
             ts = [loop.create_task(client(c), name="c%d" % c["id"]) for c in sc["clients"] if c["ops"]]
             if ts:
                 await asyncio.gather(*ts)
+            if sc.get("override") and not viol:
+                loop.event("override")
+                for nm in sc["override"]["names"]:
+                    rel = nm if "." in nm.rsplit("/", 1)[-1] or not sc["ext"] else nm + sc["ext"]
+                    fs.write("hi/" + rel, "OVR<" + sources[nm] + ">", 2)
+                bump(st, "reach.override_created")
+                ts = [loop.create_task(client(c, "ops2"), name="c%d" % c["id"]) for c in sc["clients"]
+                      if c.get("ops2")]
+                if ts:
+                    await asyncio.gather(*ts)
 
         try:
             loop.run_sim(root())
@@ -484,7 +515,11 @@ class C01:
         for i, c in enumerate(cl):
             for cand in shrink_list(c["ops"]):
                 yield {**sc, "clients": cl[:i] + [{**c, "ops": cand}] + cl[i + 1:]}
-        used_m = sorted({op["main"] for c in cl for op in c["ops"] if "main" in op})
+            for cand in shrink_list(c.get("ops2") or []):
+                yield {**sc, "clients": cl[:i] + [{**c, "ops2": cand}] + cl[i + 1:]}
+        if sc.get("override") and not any(c.get("ops2") for c in cl):
+            yield {**sc, "override": None}
+        used_m = sorted({op["main"] for c in cl for op in c["ops"] + (c.get("ops2") or []) if "main" in op})
         for m in used_m:
             for t in G.shrink_tree(sc["mains"][m]):
                 yield {**sc, "mains": sc["mains"][:m] + [t] + sc["mains"][m + 1:]}
